@@ -127,7 +127,8 @@ def run(tier, seed):
         ("invalid:exit-code-0", ["PATH", "check", "sanity", "-E", "0"], None),
         ("invalid:input-stats-missing", ["PATH", "check", "sanity", "-i", os.path.join(tmp, "nope.json")], None),
         ("invalid:input-stats-extension", ["PATH", "check", "sanity", "-i", "EXT"], None),
-    ]
+    ] + [("invalid:input-stats-extension-%s" % e, ["PATH", "check", "sanity", "-i", "EXT:" + e], None)
+         for e in ("ndjson", "geojson", "xtoml", "json.bak", "JSON", "toml~", "jsonl", "yaml")]
     # an invalid combination stays invalid whatever valid, orthogonal options accompany it
     extras = [["-m"], ["-E", "3"], ["-e", "2"], ["--filter-its-stave", "L0_12"], ["--its-trigger-period", "5", "--filter-its-stave", "L0_12"],
               ["-m", "-E", "7", "--its-trigger-period", "1", "--filter-its-stave", "L0_12"]]
@@ -142,6 +143,13 @@ def run(tier, seed):
     okpath = os.path.join(tmp, "in0.raw")
     extp = os.path.join(tmp, "stats.txt")
     open(extp, "w").write("{}")
+
+    def ext_file(e):
+        # an existing file whose extension is neither json nor toml although its name may END in these letters (seed C16-G)
+        pth = os.path.join(tmp, "stats." + e)
+        if not os.path.exists(pth):
+            open(pth, "w").write("{}")
+        return pth
 
     def work(j):
         args = ["check", j["mode"][0]] + ([] if j["mode"][1] == "none" else [j["mode"][1]])
@@ -272,7 +280,7 @@ def run(tier, seed):
     # special cases
     sj = []
     for name, args, stdin in special:
-        a = [okpath if x == "PATH" else (extp if x == "EXT" else x) for x in args]
+        a = [okpath if x == "PATH" else (extp if x == "EXT" else (ext_file(x[4:]) if x.startswith("EXT:") else x)) for x in args]
         sp = os.path.join(tmp, "sp_%s.json" % name.replace(":", "_"))
         sj.append((name, a + ["-S", sp, "-D", "json"], stdin, sp))
 
@@ -283,6 +291,11 @@ def run(tier, seed):
     for (name, a, stdin, sp), (rc, so, se, wrote) in zip(sj, core.par_map(swork, sj)):
         distinct.add(("special", name, rc if rc in (0, 1, 2) else "other"))
         if "panicked at" in se.decode("utf8", "replace") or not isinstance(rc, int) or rc < 0:
+            if name.startswith("invalid"):
+                # an invalid combination must be REJECTED (non-zero status before any output); ending in a crash is not a rejection
+                chk.spec_violations.append({"stream": "cli-contract", "case": name, "args": " ".join(os.path.basename(x) if x.startswith(tmp) else x for x in a), "exit": rc,
+                                            "stdout": so.decode("utf8", "replace")[:200], "stats_file_written": wrote,
+                                            "what": "invalid option combination not rejected: the run went on and crashed"})
             continue
         if rc == 0:
             chk.spec_violations.append({"stream": "cli-contract", "case": name, "args": " ".join(os.path.basename(x) if x.startswith(tmp) else x for x in a), "exit": rc,
@@ -290,6 +303,52 @@ def run(tier, seed):
         if name.startswith("invalid") and (wrote or so.strip()):
             chk.spec_violations.append({"stream": "cli-contract", "case": name, "stats_file_written": wrote, "stdout": so.decode("utf8", "replace")[:200],
                                         "what": "output written although the option combination is invalid"})
+    # ---- the start-up validation: model (Model/Args.v, extracted) vs the binary on option combinations, valid and invalid
+    def args_line(a):
+        """command-line arguments (after the input path) -> the model's description of the combination"""
+        ck, tg, per, ex, sf = "-", "none", "-", "-", "-"
+        if "check" in a:
+            i = a.index("check")
+            ck = a[i + 1]
+            if i + 2 < len(a) and a[i + 2] in ("its", "its-stave"):
+                tg = "its" if a[i + 2] == "its" else "stave"
+        for flag in ("-p", "--its-trigger-period"):
+            if flag in a:
+                per = a[a.index(flag) + 1]
+        if "-E" in a:
+            ex = a[a.index("-E") + 1]
+        if "-i" in a:
+            pth = a[a.index("-i") + 1]
+            base = os.path.basename(pth)
+            if not os.path.isfile(pth):
+                sf = "missing"
+            elif "." not in base.lstrip("."):
+                sf = "noext"
+            else:
+                sf = "ext:" + base.rsplit(".", 1)[1].encode().hex().upper()
+        return "%s %s %s %s %s" % (ck, tg, per, ex, sf)
+    valid_extra = [["check", "all", "its-stave", "--its-trigger-period", "7", "--filter-its-stave", "L0_12"], ["check", "sanity", "its", "-E", "9"],
+                   ["view", "rdh"], ["check", "all", "-E", "255", "-m"], ["check", "sanity", "-i", "EXT:json"], ["check", "sanity", "-i", "EXT:toml"]]
+    aj = [(name, a) for (name, a, stdin, sp) in sj if stdin is None and a and a[0] == okpath]
+    for k, extra in enumerate(valid_extra):
+        aj.append(("valid-%d" % k, [okpath] + [ext_file(x[4:]) if x.startswith("EXT:") else x for x in extra] + ["-S", os.path.join(tmp, "av_%d.json" % k), "-D", "json"]))
+    alines = [args_line(a[1:]) for _n, a in aj]
+    amodel = core.run_lines(core.FPMODEL, "args", alines)
+
+    def awork(x):
+        rc, so, se, dt = core.run_cli(x[1], timeout=60)
+        # rejected by validate_args (`Invalid config`, exit 1) or already by the argument parser (usage error, exit 2: e.g. a trigger
+        # period without the stave filter it requires)
+        return rc, ("Invalid config" in se.decode("utf8", "replace")) or rc == 2, so
+    for (name, a), line, lm, (rc, rejected, so) in zip(aj, alines, amodel, core.par_map(awork, aj)):
+        distinct.add(("args", line.split()[0], line.split()[1], lm))
+        if (lm == "rej") != rejected:
+            chk.disagreements.append({"stream": "args", "case": name, "args": " ".join(os.path.basename(x) if x.startswith(tmp) else x for x in a[1:]),
+                                      "model_line": line, "model": lm, "impl": "rejected (Invalid config)" if rejected else "accepted (exit %s)" % rc})
+        if lm == "rej" and (rc == 0 or so.strip()):
+            chk.spec_violations.append({"stream": "args", "case": name, "args": " ".join(os.path.basename(x) if x.startswith(tmp) else x for x in a[1:]), "exit": rc,
+                                        "stdout": so.decode("utf8", "replace")[:200],
+                                        "what": "an option combination that is invalid by the contract (C16_invalid_combinations_rejected) is not rejected before output"})
     # ---- a statistics file that disagrees with the run in the error section only: a reported mismatch -> exit N, muted or not
     import json as _json
     mj = []
